@@ -46,6 +46,7 @@ struct ValDef {
   u8 size = 0;    // bytes: G 1/2/4/8, V 16/32/64, D 8, K 1/2/4/8
   u8 local = 0;   // block-local temporary (defined and used inside one block)
   u8 dumped = 0;  // stored to the dump area in the final block (observable)
+  u8 half = 0;    // 128-bit vector register bound to a double parameter: only the low 8 bytes are ever defined/used
 };
 
 enum : u8 { S_NONE = 0, S_REG = 1, S_IMM = 2, S_MEM = 3 };
@@ -73,10 +74,10 @@ enum : u16 {
   O_NOP = 0,
   // general purpose
   O_MOV, O_STORE, O_ALU, O_ALUM, O_ADC2, O_UN, O_UNM, O_SHI, O_SHC, O_IMUL2, O_IMUL3, O_MUL1, O_DIV, O_CMPXCHG,
-  O_XCHG, O_XCHGM, O_XADD, O_LEA, O_SETCC, O_CMOV, O_MOVX, O_BITCNT, O_HI8,
+  O_XCHG, O_XCHGM, O_XADD, O_LEA, O_SETCC, O_CMOV, O_MOVX, O_BITCNT, O_HI8, O_BT,
   // vectors
   O_VMOV, O_VSTORE, O_VALU, O_VSHI, O_VSHUFD, O_VBCAST, O_VEXTR, O_VINS, O_VFROMG, O_VTOG, O_VPINS, O_VPEXT, O_VMSKB,
-  O_VTERN, O_VALUK, O_VCMPK, O_VM2V, O_V2M,
+  O_VTERN, O_VALUK, O_VCMPK, O_VM2V, O_V2M, O_VGATHER,
   // masks
   O_KFROMG, O_KTOG, O_KLOAD, O_KSTORE, O_KMOV, O_KALU, O_KNOT, O_KSHI, O_KSET,
   // scalar double (bit pattern only)
@@ -89,9 +90,9 @@ enum : u16 {
 static const char* const kOpNames[] = {
   "nop",
   "mov", "store", "alu", "alum", "adc2", "un", "unm", "shi", "shc", "imul2", "imul3", "mul1", "div", "cmpxchg",
-  "xchg", "xchgm", "xadd", "lea", "setcc", "cmov", "movx", "bitcnt", "hi8",
+  "xchg", "xchgm", "xadd", "lea", "setcc", "cmov", "movx", "bitcnt", "hi8", "bt",
   "vmov", "vstore", "valu", "vshi", "vshufd", "vbcast", "vextr", "vins", "vfromg", "vtog", "vpins", "vpext", "vmskb",
-  "vtern", "valuk", "vcmpk", "vm2v", "v2m",
+  "vtern", "valuk", "vcmpk", "vm2v", "v2m", "vgather",
   "kfromg", "ktog", "kload", "kstore", "kmov", "kalu", "knot", "kshi", "kset",
   "dfromg", "dtog", "dload", "dstore", "dmov",
   "call"
@@ -142,6 +143,8 @@ struct Block {
   std::vector<Op> ops;
   Term term;
   bool fuel = false;  // block starts with "sub fuel,1 ; js final"
+  u8 data_after = 0;  // number of dwords of data embedded (inside the function) right after this block's unconditional terminator
+  u8 data_kind = 0;   // 0: dwords that would trap when executed, 1: pseudo-random dwords
 };
 
 enum : u8 { MODE_SSE = 0, MODE_AVX = 1, MODE_AVX512 = 2 };
@@ -157,6 +160,8 @@ struct Program {
   int retval = -1;             // returned value (G or D), -1 = void
   int fuel = -1;               // fuel counter value (G4)
   int fuel_init = 40;
+  bool tables_inside = false;  // jump tables are embedded inside the function (after the final ret) instead of after end_func()
+  bool preserved_fp = false;   // FuncFrame::set_preserved_fp()
   int phys_k = 0;              // physical mask register used by some masked ops (reserved via FuncFrame::add_unavailable_regs)
   std::vector<int> argbind;    // function argument index (after the buffer pointer) -> value or -1
   bool use_stack = false;
@@ -184,6 +189,11 @@ static inline u64 mix64(u64 z) {
   z = (z ^ (z >> 30)) * 0xBF58476D1CE4E5B9ull;
   z = (z ^ (z >> 27)) * 0x94D049BB133111EBull;
   return z ^ (z >> 31);
+}
+
+static inline u32 embedded_word(int arch, int kind, int block, int i) {
+  if (kind == 0) return arch == 2 /* a64: udf #0 */ ? 0u : 0x0B0F0B0Fu /* ud2 ; ud2 */;
+  return (u32)mix64((u64)block * 977 + (u64)i * 13 + 5);
 }
 
 static void const_data(int seed, u8 out[64]) {
@@ -382,8 +392,8 @@ struct IVal { u8 b[64]; u64 def; };
 
 struct RunInput {
   u8 data[DATA_SIZE];
-  u64 iargs[8];     // integer arguments a1..a8
-  u64 dargs[9];     // double arguments (bit patterns)
+  u64 iargs[16];    // integer arguments a1..a16
+  u64 dargs[17];    // double arguments (bit patterns)
 };
 
 struct RunResult {
@@ -394,11 +404,16 @@ struct RunResult {
 };
 
 // number/kind of function arguments after the buffer pointer per signature class
-struct SigClass { int ni; u8 isz[8]; int nd; };
-static const SigClass kSigClasses[3] = {
-  { 0, {0, 0, 0, 0, 0, 0, 0, 0}, 0 },
-  { 3, {8, 4, 8, 0, 0, 0, 0, 0}, 0 },
+// (Globals::kMaxFuncArgs = 32 limits a signature to 31 parameters after the buffer pointer)
+struct SigClass { int ni; u8 isz[16]; int nd; };
+static const int NSIGCLASS = 6;
+static const SigClass kSigClasses[NSIGCLASS] = {
+  { 0, {0}, 0 },
+  { 3, {8, 4, 8}, 0 },
   { 8, {8, 4, 8, 8, 4, 8, 4, 8}, 9 },
+  { 14, {8, 4, 8, 8, 4, 8, 4, 8, 8, 4, 8, 8, 4, 8}, 17 },        // 9 integer and 9 double parameters on the stack (SysV x86-64)
+  { 15, {8, 8, 4, 8, 4, 8, 8, 4, 8, 8, 4, 8, 4, 8, 8}, 10 },
+  { 4, {8, 4, 8, 8}, 12 },
 };
 
 struct Interp {
@@ -823,6 +838,18 @@ struct Interp {
         break;
       }
 
+      case O_BT: {
+        // bt/bts/btr/btc d, (c | imm) ; register form: the bit index wraps modulo the operand width ; d2: setc
+        int bits = 8 * w;
+        u64 x = G(o.d, w);
+        unsigned idx = (unsigned)((o.c >= 0 ? G(o.c, w) : (u64)o.imm) % (u64)bits);
+        u64 bit = (x >> idx) & 1;
+        if (o.sub == 1) x |= 1ull << idx; else if (o.sub == 2) x &= ~(1ull << idx); else if (o.sub == 3) x ^= 1ull << idx;
+        if (o.sub) SG(o.d, w, x);
+        if (o.d2 >= 0) SG(o.d2, 1, bit);
+        break;
+      }
+
       // ---- vectors (w = bytes the instruction operates on) ----
       case O_VMOV: { u8 t[64]; VSRC(o.s, w, t); VW(o.d, w, t); break; }
       case O_VSTORE: { u8 t[64]; VR(o.a, w, t); mem_wr(o.s2.m, w, t); break; }
@@ -909,6 +936,20 @@ struct Interp {
         if (!o.flag) VR(o.d, w, d); else memset(d, 0, 64);
         for (int i = 0; i < n; i++) if ((k >> i) & 1) memcpy(d + i * esz, r + i * esz, esz);
         VW(o.d, w, d);
+        break;
+      }
+      case O_VGATHER: {
+        // vpgatherdd d{k}, [buf + a*4 + imm] ; the mask register c is cleared by the instruction
+        u8 d[64], ix[64]; VR(o.d, w, d); VR(o.a, w, ix);
+        int n = w / 4;
+        u64 k = KM(o.c, n);
+        for (int i = 0; i < n; i++) if ((k >> i) & 1) {
+          MemRef m; m.off = (int)o.imm + 4 * (int)(i32)lane(ix, i, 4);
+          if (m.off < 0 || m.off + 4 > DATA_SIZE) { fail("gather index out of range"); break; }
+          mem_rd(m, 4, d + 4 * i);
+        }
+        VW(o.d, w, d);
+        SK(o.c, 0);
         break;
       }
       case O_VCMPK: {
@@ -1034,6 +1075,10 @@ struct Interp {
       int vi = P.argbind[i];
       if (vi < 0) continue;
       if ((int)i < sc.ni) SG(vi, sc.isz[i], in.iargs[i]);
+      else if (P.vals[vi].kind == KIND_V) {
+        // double parameter bound to a wider (128-bit) virtual register: only the low 8 bytes are defined
+        memcpy(v[vi].b, &in.dargs[i - sc.ni], 8); v[vi].def |= 0xFF;
+      }
       else SD(vi, in.dargs[i - sc.ni]);
     }
     int bi = 0;
@@ -1062,6 +1107,7 @@ struct Interp {
         }
         break;
       }
+      if (b.data_after && t.kind != T_JMP && t.kind != T_SWITCH) { fail("block falls through into embedded data"); break; }
       switch (t.kind) {
         case T_FALL: bi = bi + 1; break;
         case T_JMP: bi = t.target; break;
@@ -1118,6 +1164,8 @@ static void op_rw(const Program& P, const Op& o, RW& rw) {
     case O_SETCC: R(o.a); full(o.d, 1); break;
     case O_CMOV: R(o.a); R(o.d); rw.writes.push_back(o.d); break;
     case O_HI8: R(o.d); R(o.a); rw.writes.push_back(o.d); break;
+    case O_BT: R(o.d); R(o.c); if (o.sub) rw.writes.push_back(o.d); full(o.d2, 1); break;
+    case O_VGATHER: R(o.d); R(o.a); R(o.c); rw.writes.push_back(o.d); rw.writes.push_back(o.c); break;
     case O_VMOV: case O_VBCAST: case O_VFROMG: W(o.d); break;
     case O_VSTORE: R(o.a); break;
     case O_VALU: case O_VSHI: case O_VEXTR: case O_VINS: case O_VPINS: R(o.a); W(o.d); break;
@@ -1265,7 +1313,7 @@ struct Gen {
     int cand[MAX_VALS + 64]; int n = 0;
     for (int i = 0; i < (int)P.vals.size() && n < MAX_VALS; i++) {
       const ValDef& d = P.vals[i];
-      if (d.kind != kind || d.local) continue;
+      if (d.kind != kind || d.local || d.half) continue;
       if (i == P.fuel) continue;
       if (exact ? d.size != exact : (d.size < minsize || d.size > maxsize)) continue;
       cand[n++] = i;
@@ -1544,7 +1592,7 @@ struct Gen {
 
   bool gen_fixed() {
     Op o;
-    int kind = (int)r.below(a64 ? 3 : 8);
+    int kind = (int)r.below(a64 ? 3 : 9);
     int w = pick_w();
     switch (kind) {
       case 0: case 1: {  // shift by CL
@@ -1589,6 +1637,16 @@ struct Gen {
           o.d2 = pick(KIND_G, 1);
           if (o.d2 < 0 || o.d2 == o.c || o.d2 == o.d || o.d2 == o.a) o.d2 = -1;
         }
+        push(o); return true;
+      }
+      case 8: {  // bt / bts / btr / btc (register or immediate bit index; the register form wraps modulo the width)
+        if (w < 2) w = 2;
+        o.opc = O_BT; o.w = (u8)w; o.sub = (u8)r.below(4);
+        o.d = pick(KIND_G, 0, 64, w); if (o.d < 0) o.d = pick(KIND_G, w); if (o.d < 0) return false;
+        if ((g_avoid_fwd & 4) && w == 4 && P.vals[o.d].size == 8) return false;
+        if (r.chance(2, 3) && !(g_avoid_fwd & 4096)) { o.c = pickG(w); if (o.c < 0) return false; }
+        else o.imm = (i64)r.below(256);
+        if (r.chance(2, 3)) { o.d2 = pick(KIND_G, 1); if (o.d2 == o.d || o.d2 == o.c) o.d2 = -1; }
         push(o); return true;
       }
       default: {  // xchg with memory
@@ -1777,7 +1835,7 @@ struct Gen {
     if (P.mode != MODE_AVX512) return false;
     Op o;
     static const u8 ws[] = { 1, 2, 4, 8 };
-    int kind = (int)r.below(16);
+    int kind = (int)r.below(17);
     switch (kind) {
       case 0: {
         o.opc = O_KFROMG; o.d = pick(KIND_K, 1); if (o.d < 0) return false;
@@ -1845,6 +1903,21 @@ struct Gen {
         else { int v = pick(KIND_V, o.w); if (v < 0) return false; o.s = SR(v); }
         if (r.chance(1, 5)) { o.a = o.d; o.s = SR(o.d); }
         o.flag = (u8)r.chance(1, 3);
+        push(o); return true;
+      }
+      case 16: {  // gather: dwords from the data area, indices derived from a vector value, the mask register is consumed
+        if (g_avoid_fwd & 8192) return false;
+        o.opc = O_VGATHER;
+        o.d = pick(KIND_V, 16); if (o.d < 0) return false;
+        o.w = P.vals[o.d].size;
+        int n = o.w / 4;
+        o.c = pick(KIND_K, (n + 7) / 8); if (o.c < 0) return false;
+        int src = pick(KIND_V, o.w); if (src < 0 || P.vals.size() > 900) return false;
+        int t = new_temp(KIND_V, (u8)o.w);
+        Op sh; sh.opc = O_VSHI; sh.sub = VS_PSRLD; sh.w = (u8)o.w; sh.d = t; sh.a = src; sh.imm = 26;   // indices 0..63
+        push(sh); def_temp(t);
+        o.a = t;
+        o.imm = (i64)r.below((DATA_SIZE - 4 - 63 * 4) / 4 + 1) * 4;
         push(o); return true;
       }
       case 14: case 15: {  // masked vpternlog (merge / zero masking, virtual or physical mask register)
@@ -2147,7 +2220,7 @@ static u64 shape_count() {
 
 static bool g_keep_unreachable = true;
 // constructs the generator avoids (set by the Python side when the corresponding probe shows a defect)
-enum : u32 { AV_CMPXCHG = 1, AV_SAMEREG_NARROW = 2, AV_RMW32_ON64 = 4, AV_HI8 = 8, AV_KMOVW_TOG = 16, AV_VECARG_AVX512 = 32, AV_OR_MEM_M1 = 64, AV_AND_ZERO = 128, AV_A64_TBL_MULTI = 256, AV_SAMEREG_NARROW_VEC = 512, AV_TERN_MASKED = 1024, AV_HINT_VIEWS = 2048 };
+enum : u32 { AV_CMPXCHG = 1, AV_SAMEREG_NARROW = 2, AV_RMW32_ON64 = 4, AV_HI8 = 8, AV_KMOVW_TOG = 16, AV_VECARG_AVX512 = 32, AV_OR_MEM_M1 = 64, AV_AND_ZERO = 128, AV_A64_TBL_MULTI = 256, AV_SAMEREG_NARROW_VEC = 512, AV_TERN_MASKED = 1024, AV_HINT_VIEWS = 2048, AV_BT_REGIDX = 4096, AV_GATHER = 8192 };
 u32 g_avoid_fwd = 0;
 #define g_avoid g_avoid_fwd
 
@@ -2182,6 +2255,8 @@ static Program gen_program(Rng& r, const Profile& pf, i64 shape_idx) {
   P.use_stack = !a64 && (int)r.below(100) < pf.stack_pct;
   P.sigclass = (u8)r.below(3);
   if (a64 && P.sigclass == 2) P.sigclass = 1;
+  if (!a64 && r.chance(1, 3)) P.sigclass = (u8)(3 + r.below(3));   // many parameters: most of them arrive on the stack
+  P.preserved_fp = !a64 && r.chance(1, 4);
   P.cconv = (u8)r.below(4);
   P.fuel_init = (int)r.range(6, 40);
   if (P.mode == MODE_AVX512 && !x32 && r.chance(1, 2)) P.phys_k = (int)r.range(1, 7);
@@ -2190,6 +2265,22 @@ static Program gen_program(Rng& r, const Profile& pf, i64 shape_idx) {
   int entry = g.new_block();
   const SigClass& sc = kSigClasses[P.sigclass];
   P.argbind.assign(sc.ni + sc.nd, -1);
+  // double parameters bound to a 128-bit virtual register (wider than the parameter): a stack-passed one cannot use the caller's slot as its home
+  if (!a64 && sc.nd > 0 && !((g_avoid_fwd & 32) && P.mode == MODE_AVX512)) {
+    for (int a = sc.nd - 1; a >= 0 && P.vals.size() < 240; a--) {
+      if (!r.chance(a >= 8 || x32 ? 1 : 0, 2) && !r.chance(1, 8)) continue;
+      int vi = g.new_val(KIND_V, 16, false, true);
+      P.vals[vi].half = 1;
+      P.argbind[sc.ni + a] = vi;
+    }
+    // sometimes every double parameter is live on entry: more parameters than vector registers, so some stay on / move within the stack
+    if (sc.nd >= 10 && r.chance(1, 2)) {
+      for (int a = 0; a < sc.nd && P.vals.size() < 250; a++) {
+        if (P.argbind[sc.ni + a] >= 0) continue;
+        P.argbind[sc.ni + a] = g.new_val(KIND_D, 8, false, true);
+      }
+    }
+  }
   {
     Block& b = P.blocks[entry];
     Op o; o.opc = O_MOV; o.w = 4; o.d = P.fuel; o.s = SI(P.fuel_init); b.ops.push_back(o);
@@ -2199,6 +2290,8 @@ static Program gen_program(Rng& r, const Profile& pf, i64 shape_idx) {
     for (int vi : order) {
       const ValDef& d = P.vals[vi];
       Op q;
+      if (d.half) continue;   // bound to a parameter above
+      if (std::find(P.argbind.begin(), P.argbind.end(), vi) != P.argbind.end()) continue;
       if (d.kind == KIND_G) {
         // function argument?
         bool bound = false;
@@ -2257,7 +2350,16 @@ static Program gen_program(Rng& r, const Profile& pf, i64 shape_idx) {
       P.blocks[b].term.target = 1 + (int)r.below(nb);  // may be the final block (index nb)
     }
     P.shape = "random";
+    // early returns: some unconditional jumps become "ret" in the middle of the function
+    for (size_t b = 1; b < P.blocks.size(); b++)
+      if (P.blocks[b].term.kind == T_JMP && r.chance(1, 8)) { P.blocks[b].term = Term(); P.blocks[b].term.kind = T_RET; }
   }
+  // data embedded inside the function: behind unconditional jumps, annotated jumps and non-final rets
+  for (size_t b = 1; b < P.blocks.size(); b++) {
+    u8 k = P.blocks[b].term.kind;
+    if ((k == T_JMP || k == T_RET || k == T_SWITCH) && r.chance(1, 6)) { P.blocks[b].data_after = (u8)r.range(1, 6); P.blocks[b].data_kind = (u8)r.below(2); }
+  }
+  P.tables_inside = r.chance(1, 2);
   for (int c : g.init_counter) {
     Op o; o.opc = O_MOV; o.w = 4; o.d = c; o.s = SI(1);
     P.blocks[entry].ops.push_back(o);
@@ -2272,12 +2374,14 @@ static Program gen_program(Rng& r, const Profile& pf, i64 shape_idx) {
       if (d.local || !d.dumped || vi >= MAX_VALS) continue;
       Op q; MemRef m; m.off = DUMP_OFF + vi * 64;
       if (d.kind == KIND_G) { q.opc = O_STORE; q.w = d.size; q.s = SR(vi); q.s2 = SM(m); }
+      else if (d.kind == KIND_V && d.half) { q.opc = O_DSTORE; q.a = vi; q.s2 = SM(m); }
       else if (d.kind == KIND_V) { q.opc = O_VSTORE; q.w = d.size; q.a = vi; q.s2 = SM(m); }
       else if (d.kind == KIND_K) { q.opc = O_KSTORE; q.w = d.size; q.a = vi; q.s2 = SM(m); }
       else { q.opc = O_DSTORE; q.a = vi; q.s2 = SM(m); }
       b.ops.push_back(q);
     }
     b.term.kind = T_RET;
+    if (r.chance(1, 4)) { b.data_after = (u8)r.range(1, 8); b.data_kind = (u8)r.below(2); }   // data between the final ret and end_func()
     // return value
     g.cur = &b; g.temps.clear();
     int rv = -1;
@@ -2332,13 +2436,13 @@ static std::string serialise(const Program& P) {
   std::string s;
   char b[256];
   static const char* archs[] = { "x64", "x86", "a64" };
-  snprintf(b, sizeof b, "program arch=%s mode=%d profile=%s shape=%s sig=%d cconv=%d ret=v%d fuel=v%d stack=%d physk=%d\n", archs[P.arch], P.mode,
-           P.profile.c_str(), P.shape.c_str(), P.sigclass, P.cconv, P.retval, P.fuel, (int)P.use_stack, P.phys_k);
+  snprintf(b, sizeof b, "program arch=%s mode=%d profile=%s shape=%s sig=%d cconv=%d ret=v%d fuel=v%d stack=%d physk=%d fp=%d tabin=%d\n", archs[P.arch], P.mode,
+           P.profile.c_str(), P.shape.c_str(), P.sigclass, P.cconv, P.retval, P.fuel, (int)P.use_stack, P.phys_k, (int)P.preserved_fp, (int)P.tables_inside);
   s += b;
   s += "vals:";
   for (size_t i = 0; i < P.vals.size(); i++) {
     const ValDef& d = P.vals[i];
-    snprintf(b, sizeof b, " v%zu=%c%d%s%s", i, "gvdk"[d.kind], d.size * 8, d.local ? "t" : "", d.dumped ? "*" : "");
+    snprintf(b, sizeof b, " v%zu=%c%d%s%s", i, "gvdk"[d.kind], d.size * 8, d.half ? "h" : (d.local ? "t" : ""), d.dumped ? "*" : "");
     s += b;
   }
   s += "\nargs:";
@@ -2346,7 +2450,7 @@ static std::string serialise(const Program& P) {
   s += "\n";
   for (size_t bi = 0; bi < P.blocks.size(); bi++) {
     const Block& bl = P.blocks[bi];
-    snprintf(b, sizeof b, "B%zu%s:\n", bi, bl.fuel ? " (fuel)" : "");
+    snprintf(b, sizeof b, "B%zu%s%s:\n", bi, bl.fuel ? " (fuel)" : "", bl.data_after ? (bl.data_kind ? " (+random data after)" : " (+trap data after)") : "");
     s += b;
     for (const Op& o : bl.ops) { s += "  "; s += fmt_op(o); s += "\n"; }
     const Term& t = bl.term;
@@ -2376,6 +2480,8 @@ public:
     if (err == Error::kOk) { err = e; msg = m ? m : ""; }
   }
 };
+
+struct DataRange { Label lab; int size; bool inside; };
 
 struct EmitStats {
   int loads = 0, saves = 0, moves = 0, swaps = 0, rm_subst = 0;
@@ -2467,6 +2573,7 @@ struct X86Emitter {
   std::vector<Table> tables;
   std::vector<NodeRec> recs;
   std::vector<Label> data_labels;   // labels that start data (jump tables, constant pool)
+  std::vector<DataRange> dranges;   // the same with sizes (-1: constant pool, extends to the next range / end of code)
   bool sse, avx512;
 
   X86Emitter(x86::Compiler& c, const Program& p) : cc(c), P(p) {
@@ -2510,7 +2617,7 @@ struct X86Emitter {
         Label l; l.set_id(r.base_id());
         bool seen = false;
         for (const Label& x : data_labels) if (x.id() == l.id()) seen = true;
-        if (!seen) data_labels.push_back(l);
+        if (!seen) { data_labels.push_back(l); dranges.push_back(DataRange{ l, -1, false }); }
       }
     }
     else if (m.space == M_STK) {
@@ -2616,6 +2723,16 @@ struct X86Emitter {
         E(ids[o.sub], g(o.d, w), src(o.s, w));
         break;
       }
+      case O_BT: {
+        static const InstId ids[] = { Inst::kIdBt, Inst::kIdBts, Inst::kIdBtr, Inst::kIdBtc };
+        if (o.c >= 0) E(ids[o.sub], g(o.d, w), g(o.c, w)); else E(ids[o.sub], g(o.d, w), Imm(o.imm & 0xFF));
+        if (o.d2 >= 0) E(Inst::kIdSetb, g(o.d2, 1));
+        break;
+      }
+      case O_VGATHER:
+        cc.k(kk(o.c));
+        E(Inst::kIdVpgatherdd, vv(o.d, w), x86::ptr(bufp, vv(o.a, w), 2, (int32_t)o.imm));
+        break;
       case O_HI8: {
         Gp dh = regs[o.d].as<Gp>().r8_hi();
         switch (o.sub) {
@@ -2796,6 +2913,7 @@ struct X86Emitter {
     if (!fn) return;
     if (P.mode >= MODE_AVX) fn->frame().set_avx_enabled();
     if (P.mode >= MODE_AVX512) fn->frame().set_avx512_enabled();
+    if (P.preserved_fp) fn->frame().set_preserved_fp();
     if (P.phys_k) {
       // the program writes a physical mask register itself: keep the allocator away from it when it also has virtual mask registers
       bool has_virt_k = false;
@@ -2831,11 +2949,23 @@ struct X86Emitter {
       }
       for (const Op& o : b.ops) emit_op(o);
       emit_term(bi);
+      if (b.data_after) {
+        Label dl = cc.new_label();
+        cc.bind(dl);
+        for (int i = 0; i < b.data_after; i++) cc.embed_uint32(embedded_word(P.arch, b.data_kind, bi, i));
+        dranges.push_back(DataRange{ dl, 4 * b.data_after, true });
+        data_labels.push_back(dl);
+      }
     }
+    if (P.tables_inside) emit_tables(true);
     cc.end_func();
+    if (!P.tables_inside) emit_tables(false);
+  }
+  void emit_tables(bool inside) {
     for (const Table& tb : tables) {
       cc.bind(tb.lab);
       for (int x : tb.targets) cc.embed_label_delta(labels[x], tb.lab, 4);
+      dranges.push_back(DataRange{ tb.lab, 4 * (int)tb.targets.size(), inside });
     }
   }
 };
@@ -2883,10 +3013,27 @@ typedef double (*FnD0)(u8*);
 typedef double (*FnD1)(u8*, u64, u32, u64);
 typedef double (*FnD2)(u8*, u64, u32, u64, u64, u32, u64, u32, u64, double, double, double, double, double, double, double, double, double);
 
+#define D4 double, double, double, double
+typedef u64 (*FnI3)(u8*, u64, u64, u64, u64, u64, u64, u64, u64, u64, u64, u64, u64, u64, u64, D4, D4, D4, D4, double);
+typedef u64 (*FnI4)(u8*, u64, u64, u64, u64, u64, u64, u64, u64, u64, u64, u64, u64, u64, u64, u64, D4, D4, double, double);
+typedef u64 (*FnI5)(u8*, u64, u64, u64, u64, D4, D4, D4);
+typedef double (*FnD3)(u8*, u64, u64, u64, u64, u64, u64, u64, u64, u64, u64, u64, u64, u64, u64, D4, D4, D4, D4, double);
+typedef double (*FnD4)(u8*, u64, u64, u64, u64, u64, u64, u64, u64, u64, u64, u64, u64, u64, u64, u64, D4, D4, double, double);
+typedef double (*FnD5)(u8*, u64, u64, u64, u64, D4, D4, D4);
+#undef D4
+#define A14 a[0], a[1], a[2], a[3], a[4], a[5], a[6], a[7], a[8], a[9], a[10], a[11], a[12], a[13]
+#define DD8 d[0], d[1], d[2], d[3], d[4], d[5], d[6], d[7]
+
 static NOSAN u64 call_native(void* fn, int sigclass, bool retd, u8* buf, const RunInput& in) {
   const u64* a = in.iargs;
-  double d[9];
-  for (int i = 0; i < 9; i++) d[i] = bitsd(in.dargs[i]);
+  double d[17];
+  for (int i = 0; i < 17; i++) d[i] = bitsd(in.dargs[i]);
+  // u32 parameters are passed as u64: the callee only looks at the low half (registers and 8-byte stack slots alike)
+  if (sigclass == 3) return retd ? dbits(((FnD3)fn)(buf, A14, DD8, d[8], d[9], d[10], d[11], d[12], d[13], d[14], d[15], d[16]))
+                                 : ((FnI3)fn)(buf, A14, DD8, d[8], d[9], d[10], d[11], d[12], d[13], d[14], d[15], d[16]);
+  if (sigclass == 4) return retd ? dbits(((FnD4)fn)(buf, A14, a[14], DD8, d[8], d[9])) : ((FnI4)fn)(buf, A14, a[14], DD8, d[8], d[9]);
+  if (sigclass == 5) return retd ? dbits(((FnD5)fn)(buf, a[0], a[1], a[2], a[3], DD8, d[8], d[9], d[10], d[11]))
+                                 : ((FnI5)fn)(buf, a[0], a[1], a[2], a[3], DD8, d[8], d[9], d[10], d[11]);
   if (!retd) {
     switch (sigclass) {
       case 0: return ((FnI0)fn)(buf);
@@ -2999,10 +3146,22 @@ struct Compiled {
   EmitStats st;
   std::vector<u8> code;   // compile-only: .text bytes
   size_t code_end = 0;    // offset where data (tables / constant pool) starts
+  std::string data_json = "[]";  // [[offset, size, inside-the-function], ...] of every data range in the code
   size_t code_size = 0;
 };
 
 static JitRuntime* g_rt = nullptr;
+
+static std::string data_ranges_json(CodeHolder& code, const std::vector<DataRange>& dr) {
+  std::string s = "[";
+  for (const DataRange& d : dr) {
+    if (!code.is_label_bound(d.lab)) continue;
+    if (s.size() > 1) s += ",";
+    s += "[" + std::to_string((size_t)code.label_offset(d.lab)) + "," + std::to_string(d.size) + "," + (d.inside ? "1" : "0") + "]";
+  }
+  return s + "]";
+}
+
 
 static bool g_trace = false;
 static int g_trace_val = -1;
@@ -3042,6 +3201,7 @@ static bool compile_x86(const Program& P, Compiled& out, bool annotate) {
       if (code.is_label_bound(l)) end = std::min(end, (size_t)code.label_offset(l));
     }
     out.code_end = end;
+    out.data_json = data_ranges_json(code, em.dranges);
   }
   return true;
 }
@@ -3074,8 +3234,8 @@ static void make_inputs(Rng& r, int n, std::vector<RunInput>& out) {
         break;
       }
     }
-    for (int i = 0; i < 8; i++) in.iargs[i] = fill == 2 ? (r.chance(1, 4) ? r.below(64) : r.next()) : fill + (fill == 1 ? i : 0);
-    for (int i = 0; i < 9; i++) in.dargs[i] = fill == 2 ? r.next() : (fill ^ ((u64)i << 52));
+    for (int i = 0; i < 16; i++) in.iargs[i] = fill == 2 ? (r.chance(1, 4) ? r.below(64) : r.next()) : fill + (fill == 1 ? i : 0);
+    for (int i = 0; i < 17; i++) in.dargs[i] = fill == 2 ? r.next() : (fill ^ ((u64)i << 52));
   }
 }
 
@@ -3228,7 +3388,7 @@ static Program shrink_program(const Program& P0, const RunInput& input, int fail
       for (const Op& o : b.ops) { if (op_refs(Q0, o, v)) any = true; else keep.push_back(o); }
       b.ops.swap(keep);
       std::vector<int> rd; term_reads(b.term, rd);
-      for (int x : rd) if (x == v) { b.term = Term(); any = true; break; }
+      for (int x : rd) if (x == v) { b.term = Term(); b.data_after = 0; any = true; break; }
     }
     for (int& a : Q.argbind) if (a == v) { a = -1; any = true; }
     if (any) { compute_fuel_flags(Q); if (!g_keep_unreachable) { while (prune_unreachable(Q)) compute_fuel_flags(Q); } }
@@ -3265,6 +3425,7 @@ static Program shrink_program(const Program& P0, const RunInput& input, int fail
       if (t.kind == T_BR || t.kind == T_DEC || t.kind == T_SWITCH || t.kind == T_JMP) {
         Program Q = best;
         Q.blocks[bi].term = Term();
+        Q.blocks[bi].data_after = 0;
         compute_fuel_flags(Q);
         if (!g_keep_unreachable) { while (prune_unreachable(Q)) compute_fuel_flags(Q); }
         if (Q.blocks.size() != best.blocks.size()) { if (still_fails(Q)) { best = Q; progress = true; } break; }
@@ -3390,9 +3551,9 @@ static std::string json_map(const std::map<std::string, u64>& m) {
 
 static std::string input_to_string(const RunInput& in) {
   std::string s = "data=" + hexstr(in.data, DATA_SIZE) + " iargs=";
-  for (int i = 0; i < 8; i++) { char b[32]; snprintf(b, sizeof b, "%llx,", (unsigned long long)in.iargs[i]); s += b; }
+  for (int i = 0; i < 16; i++) { char b[32]; snprintf(b, sizeof b, "%llx,", (unsigned long long)in.iargs[i]); s += b; }
   s += " dargs=";
-  for (int i = 0; i < 9; i++) { char b[32]; snprintf(b, sizeof b, "%llx,", (unsigned long long)in.dargs[i]); s += b; }
+  for (int i = 0; i < 17; i++) { char b[32]; snprintf(b, sizeof b, "%llx,", (unsigned long long)in.dargs[i]); s += b; }
   return s;
 }
 
@@ -3410,6 +3571,7 @@ struct A64Emitter {
   struct Table { Label lab; std::vector<int> targets; };
   std::vector<Table> tables;
   std::vector<Label> data_labels;
+  std::vector<DataRange> dranges;
   std::vector<NodeRec> recs;
 
   A64Emitter(a64::Compiler& c, const Program& p) : cc(c), P(p) {}
@@ -3619,11 +3781,23 @@ struct A64Emitter {
       if (b.fuel) { cc.subs(g(P.fuel, 4), g(P.fuel, 4), Imm(1)); cc.b_mi(labels[nb - 1]); }
       for (const Op& o : b.ops) emit_op(o);
       emit_term(bi);
+      if (b.data_after) {
+        Label dl = cc.new_label();
+        cc.bind(dl);
+        for (int i = 0; i < b.data_after; i++) cc.embed_uint32(embedded_word(P.arch, b.data_kind, bi, i));
+        dranges.push_back(DataRange{ dl, 4 * b.data_after, true });
+        data_labels.push_back(dl);
+      }
     }
+    if (P.tables_inside) emit_tables(true);
     cc.end_func();
+    if (!P.tables_inside) emit_tables(false);
+  }
+  void emit_tables(bool inside) {
     for (const Table& tb : tables) {
       cc.bind(tb.lab);
       for (int x : tb.targets) cc.embed_label_delta(labels[x], tb.lab, 4);
+      dranges.push_back(DataRange{ tb.lab, 4 * (int)tb.targets.size(), inside });
     }
   }
 };
@@ -3659,6 +3833,7 @@ static bool compile_a64(const Program& P, Compiled& out, bool annotate) {
   out.st.user_insts = (int)em.recs.size();
   collect_ra_stats(cc, em.recs, out.st);
   finish_compile_only(code, em.data_labels, out);
+  out.data_json = data_ranges_json(code, em.dranges);
   return true;
 }
 
@@ -4010,7 +4185,7 @@ static bool run_other_mode(const std::string& mode, const Args& args, Counters& 
         Compiled comp;
         bool ok = compile_a64(P, comp, annotate);
         if (!ok) { out = stats_line("ERR", comp.st) + std::string(DebugUtils::error_as_string(comp.err)) + "\n" + comp.stage + ": " + comp.errmsg; return; }
-        out = stats_line("OK", comp.st) + "{\"index\":" + std::to_string(idx) + ",\"profile\":" + jstr(P.profile) + ",\"code_end\":" + std::to_string(comp.code_end) +
+        out = stats_line("OK", comp.st) + "{\"index\":" + std::to_string(idx) + ",\"profile\":" + jstr(P.profile) + ",\"code_end\":" + std::to_string(comp.code_end) + ",\"data\":" + comp.data_json +
               ",\"user_insts\":" + std::to_string(comp.st.user_insts) + ",\"hex\":\"" + hexstr(comp.code.data(), comp.code.size()) + "\"}";
       });
       std::string tag, payload; EmitStats st;
@@ -4128,6 +4303,7 @@ struct ProbeBuilder {
       if (!d.dumped) continue;
       Op q; MemRef m; m.off = DUMP_OFF + vi * 64;
       if (d.kind == KIND_G) { q.opc = O_STORE; q.w = d.size; q.s = SR(vi); q.s2 = SM(m); }
+      else if (d.kind == KIND_V && d.half) { q.opc = O_DSTORE; q.a = vi; q.s2 = SM(m); }
       else if (d.kind == KIND_V) { q.opc = O_VSTORE; q.w = d.size; q.a = vi; q.s2 = SM(m); }
       else if (d.kind == KIND_K) { q.opc = O_KSTORE; q.w = d.size; q.a = vi; q.s2 = SM(m); }
       else { q.opc = O_DSTORE; q.a = vi; q.s2 = SM(m); }
@@ -4155,6 +4331,10 @@ static const ProbeDef kProbes[] = {
   { "same-reg-hint-different-views", AV_HINT_VIEWS, false, "xchg/xor between AL and AH views of one virtual register gets the same-register hint of xchg r,r / xor r,r" },
   { "call-stack-area-max-over-invokes", 0, false, "the frame's call-stack area must cover the largest stack-argument block of ALL invokes, not the one of the last invoke: a big call followed by a small one overwrites spill slots / new_stack() memory" },
   { "immediate-stack-argument", 0, false, "immediate invoke arguments (InvokeNode::set_arg(i, Imm)) must arrive unchanged in register and stack positions for every boundary value" },
+  { "ret-before-embedded-data", 0, false, "a ret (final or early) that is followed inside the function only by labels and embedded data must still jump to the epilog" },
+  { "relocated-stack-argument-with-call-area", 0, false, "a stack-passed parameter relocated into a local slot (wider virtual register / realigned frame) must be stored where the body reads it, also when the function has a call-argument area" },
+  { "bt-register-base-spilled", AV_BT_REGIDX, false, "bt/bts/btr/btc reg,reg: the bit-base register is replaced by its spill slot, where a bit index >= width addresses memory outside the slot instead of wrapping" },
+  { "gather-mask-written", AV_GATHER, true, "vpgatherdd zmm{k}: the mask register is cleared by the instruction but the allocator treats it as read-only" },
   { "unreachable-predecessor", 0x80000000u, false, "an unreachable block that flows into a reachable loop crashes the liveness analysis" },
 };
 static const int kNProbes = sizeof(kProbes) / sizeof(kProbes[0]);
@@ -4260,6 +4440,63 @@ static Program build_probe(const std::string& name) {
     { Op st; st.opc = O_VSTORE; st.w = 32; st.a = y2; st.s2 = SM(ProbeBuilder::M(160)); b.ops().push_back(st); }
     Op o; o.opc = O_VALU; o.sub = VA_PMINUD; o.w = 16; o.d = y; o.a = y; o.s = SR(y); b.ops().push_back(o);
     Op q; q.opc = O_VALU; q.sub = VA_PAND; q.w = 16; q.d = y2; q.a = y2; q.s = SR(y2); b.ops().push_back(q);
+    b.call0();
+    b.finish(-1);
+    return b.P;
+  }
+  if (name == "ret-before-embedded-data") {
+    ProbeBuilder b;
+    int x = b.val(KIND_G, 8), y = b.val(KIND_G, 8);
+    b.load(x, 0); b.load(y, 8);
+    // B1: if (x < y) goto B3 ; B2: early ret + data ; B3: x += y ; final: dump, ret + data
+    Term& t = b.P.blocks[1].term; t.kind = T_BR; t.cc = CC_B; t.w = 8; t.a = x; t.s = SR(y); t.target = 3;
+    int e = b.nblock(); b.P.blocks[e].term.kind = T_RET; b.P.blocks[e].data_after = 3; b.P.blocks[e].data_kind = 0;
+    int c = b.nblock();
+    { Op o; o.opc = O_ALU; o.sub = A_ADD; o.w = 8; o.d = x; o.s = SR(y); b.P.blocks[c].ops.push_back(o); }
+    b.finish(x);
+    b.P.blocks.back().data_after = 4; b.P.blocks.back().data_kind = 0;
+    return b.P;
+  }
+  if (name == "relocated-stack-argument-with-call-area") {
+    ProbeBuilder b(MODE_AVX, 3);
+    const SigClass& sc = kSigClasses[3];
+    for (int a = 0; a < sc.nd; a++) {
+      int vi;
+      if (a >= 8 && (a & 1) == 0) { vi = b.val(KIND_V, 16); b.P.vals[vi].half = 1; }   // wider than the parameter
+      else vi = b.val(KIND_D, 8);
+      b.P.argbind[sc.ni + a] = vi;
+    }
+    for (int a = 6; a < sc.ni; a++) { int vi = b.val(KIND_G, sc.isz[a]); b.P.argbind[a] = vi; }   // stack-passed integers
+    std::vector<int> y;
+    for (int i = 0; i < 10; i++) { y.push_back(b.val(KIND_V, 32)); b.load(y.back(), 32 * i); }    // 32-byte spill slots: realigned frame
+    { Op o; o.opc = O_CALL; o.imm = NCALLEE_OLD; for (int k = 0; k < g_sigs[NCALLEE_OLD].n; k++) o.args.push_back(SI(1000 + k)); b.ops().push_back(o); }
+    for (int i = 0; i < 10; i++) { Op o; o.opc = O_VALU; o.sub = VA_PADDD; o.w = 32; o.d = y[i]; o.a = y[i]; o.s = SR(y[(i + 1) % 10]); b.ops().push_back(o); }
+    b.call0();
+    b.finish(-1);
+    return b.P;
+  }
+  if (name == "bt-register-base-spilled") {
+    ProbeBuilder b;
+    int v = b.val(KIND_G, 4), v2 = b.val(KIND_G, 8), i1 = b.val(KIND_G, 4, false), i2 = b.val(KIND_G, 8, false), c1 = b.val(KIND_G, 1), c2 = b.val(KIND_G, 1);
+    b.load(v, 0); b.load(v2, 8); b.load(c1, 16); b.load(c2, 17);
+    { Op o; o.opc = O_MOV; o.w = 4; o.d = i1; o.s = SI(100); b.P.blocks[0].ops.push_back(o); }
+    { Op o; o.opc = O_MOV; o.w = 8; o.d = i2; o.s = SI(-3); b.P.blocks[0].ops.push_back(o); }
+    b.call0();
+    { Op o; o.opc = O_BT; o.sub = 1; o.w = 4; o.d = v; o.c = i1; o.d2 = c1; b.ops().push_back(o); }    // bts v32, 100  -> bit 4
+    { Op o; o.opc = O_BT; o.sub = 3; o.w = 8; o.d = v2; o.c = i2; o.d2 = c2; b.ops().push_back(o); }   // btc v64, -3   -> bit 61
+    b.call0();
+    b.finish(v);
+    return b.P;
+  }
+  if (name == "gather-mask-written") {
+    ProbeBuilder b(MODE_AVX512);
+    int k = b.val(KIND_K, 2), k2 = b.val(KIND_K, 2), src = b.val(KIND_V, 64), d = b.val(KIND_V, 64), t = b.val(KIND_V, 64, false), g = b.val(KIND_G, 4, false);
+    b.load(src, 64); b.load(d, 128); b.load(k2, 8);
+    { Op o; o.opc = O_MOV; o.w = 4; o.d = g; o.s = SI(0xFFFF); b.P.blocks[0].ops.push_back(o); }
+    { Op o; o.opc = O_KFROMG; o.w = 2; o.d = k; o.a = g; b.P.blocks[0].ops.push_back(o); }
+    b.call0();
+    { Op o; o.opc = O_VSHI; o.sub = VS_PSRLD; o.w = 64; o.d = t; o.a = src; o.imm = 26; b.ops().push_back(o); }
+    { Op o; o.opc = O_VGATHER; o.w = 64; o.d = d; o.a = t; o.c = k; o.imm = 16; b.ops().push_back(o); }
     b.call0();
     b.finish(-1);
     return b.P;
@@ -4598,7 +4835,7 @@ int main(int argc, char** argv) {
       if (comp.st.nontrivial()) { ctr.nontrivial++; ctr.distinct_nontrivial.insert(ph); }
       if (!firstp) progs += ",";
       firstp = false;
-      progs += "{\"index\":" + std::to_string(idx) + ",\"profile\":" + jstr(P.profile) + ",\"code_end\":" + std::to_string(comp.code_end) +
+      progs += "{\"index\":" + std::to_string(idx) + ",\"profile\":" + jstr(P.profile) + ",\"code_end\":" + std::to_string(comp.code_end) + ",\"data\":" + comp.data_json +
                ",\"user_insts\":" + std::to_string(comp.st.user_insts) + ",\"hex\":\"" + hexstr(comp.code.data(), comp.code.size()) + "\"}";
     }
     progs += "]";
